@@ -43,6 +43,11 @@ def decode(v):
             return cls(**fields)
         if '$abstract' in v:
             return None
+        if '$nested_counter_element' in v:
+            # abstract argument list: replay on a one-cell range holding the element for which the
+            # pointwise obligation failed (plus a number, so that folds are non-trivial)
+            ce = v['$nested_counter_element'] or {}
+            return ((decode(ce.get('elem')), 1), (2, 3.5))
         if '$dyn' in v:
             return decode(v['$dyn'])
         return {k: decode(x) for k, x in v.items()}
